@@ -448,3 +448,32 @@ Qed.
 (* equal observations give equal documents: what is written is a function of the observation *)
 Theorem encode_respects_model s s' : same_model s s' -> encode s = encode s'.
 Proof. intros (c & H1 & H2). unfold encode. rewrite H1, H2. reflexivity. Qed.
+
+(** * without sub-stores the general writer and loader are the ones of the theorem *)
+Lemma pick_no_owner {X} (l : list (nat * X)) : pick [] None l = l.
+Proof.
+  unfold pick. induction l as [|p l IH]; cbn [filter]; [reflexivity|].
+  assert (E : onat_eqb (owner_of [] (fst p)) None = true) by (unfold owner_of; destruct (fst p); reflexivity).
+  rewrite E, IH. reflexivity.
+Qed.
+
+Theorem encode_o_no_substores s : encode_o s no_owners = encode s.
+Proof.
+  unfold encode_o, encode, sub_docs, canon_part, no_owners. cbn [ow_subs ow_res ow_set ow_ann length seq combine omap map].
+  rewrite !pick_no_owner. unfold canon.
+  destruct (omap (fun p => canon_set (snd p)) (live (st_sets s))) as [css|]; [|reflexivity].
+  destruct (omap (canon_ann s) (live (st_anns s))) as [cas|]; [|reflexivity].
+  cbn [option_map]. unfold encode_c, with_include, main_doc. cbn [app c_id c_ress c_sets c_anns b_id b_ress b_sets b_anns map snd].
+  reflexivity.
+Qed.
+
+Theorem decode_o_no_substores d b :
+  parse_bstore (fst d) = Some b -> b_include b = [] ->
+  decode_o d = option_map (fun s => (s, own_new no_owners s None)) (decode d).
+Proof.
+  intros Hp Hi. unfold decode_o, decode. rewrite Hp, Hi. cbn [load_subs].
+  unfold build_into, build. cbn [st_ress st_sets st_anns st_id length].
+  destruct (load_ress (snd d) [] (b_ress b)) as [rs|]; [|reflexivity].
+  destruct (load_sets (snd d) [] (b_sets b)) as [ss|]; [|reflexivity].
+  destruct (load_anns 0 (mkdstore (b_id b) rs ss []) (b_anns b)); reflexivity.
+Qed.
